@@ -25,6 +25,7 @@ import Dashu.Proofs.NT.LehmerEuclidFit
 import Dashu.Proofs.NT.LehmerStepWords
 import Dashu.Proofs.NT.LehmerStepWordsGen
 import Dashu.Proofs.NT.LehmerStepCommitted
+import Dashu.Proofs.NT.LehmerStepCommittedFull
 /-
   C12 — gcd, integer roots, integer logarithms and `remove` satisfy their defining (in)equalities;
   the only panics are the documented ones.
@@ -977,5 +978,62 @@ theorem lehmer_step_full_longer (W a b c d : Nat) (hW : 1 ≤ W) (ha : a < 2 ^ (
 example : lehmerStepFull 64 1 2 0 1 [5, 7, 1] [0, 2 ^ 63] = some ([5, 7, 0], [0, 2 ^ 63]) ∧
     (val 64 [5, 7, 0] : Int) = 1 * val 64 [5, 7, 1] - 2 * val 64 [0, 2 ^ 63] ∧
     lehmerStepFull 64 1 2 0 1 [5, 7, 1] [0, 2 ^ 63 + 5] = none := by decide +kernel
+
+-- ==================================================================== lehmer_step on a committed guess (Round 7)
+
+/-- **the second combined value of a guess never exceeds `y`**: `d·y − c·x ≤ y` for the cofactors `gcd_in_place` /
+    `gcd_ext_in_place` use (`y ≤ x`, `y` of more than one word; committed or not).  It starts at `y` and every second
+    half round of `lehmer_guess` subtracts `q·(a·x − b·y) ≥ 0`.  With `y < 2^(W·y.len())` this is the hypothesis
+    `d·Y − c·X < 2^(W·y.len())` of `lehmer_step_full_eqlen` / `_longer`, the function's own
+    `debug_assert_eq!(y_carry, c * x_top)`. -/
+theorem lehmer_step_committed_y_le (W : Nat) (hW : 0 < W) (x y : Nat) (hxy : y ≤ x) (hlen : 1 < wordLen W y) :
+    ((lehmerCofactors W x y).2.2.2 : Int) * y - ((lehmerCofactors W x y).2.2.1 : Int) * x ≤ y :=
+  lehmer_committed_y_le W hW x y hxy hlen
+
+/-- **`lehmer_step` in full on a committed guess, `x` one word longer than `y` — no value hypothesis left.**  For word
+    lists `x = xl ++ [x_top]`, `y` with `Y ≤ X`, `y` of more than one significant word and a committed guess (`b ≠ 0`)
+    computed from the operands themselves, the mirrored function (zip loop, `x_top` fix-up, both `debug_assert_eq!`s as
+    failures) returns `a·X − b·Y` and `d·Y − c·X` exactly, in place (lengths kept); both are positive, their sum is at
+    most `X` and the new `y` is at most `Y`. -/
+theorem lehmer_step_full_committed_longer (W : Nat) (hW : 2 ≤ W) (xl : List Nat) (xt : Nat) (y : List Nat)
+    (hx : IsWords W xl) (hxt : xt < 2 ^ W) (hy : IsWords W y) (hl : xl.length = y.length)
+    (hxy : val W y ≤ val W (xl ++ [xt])) (hlen : 1 < wordLen W (val W y))
+    (hb : (lehmerCofactors W (val W (xl ++ [xt])) (val W y)).2.1 ≠ 0) :
+    ∃ x' y', lehmerStepFull W (lehmerCofactors W (val W (xl ++ [xt])) (val W y)).1
+        (lehmerCofactors W (val W (xl ++ [xt])) (val W y)).2.1 (lehmerCofactors W (val W (xl ++ [xt])) (val W y)).2.2.1
+        (lehmerCofactors W (val W (xl ++ [xt])) (val W y)).2.2.2 (xl ++ [xt]) y = some (x', y') ∧
+      x'.length = xl.length + 1 ∧ y'.length = y.length ∧ IsWords W x' ∧ IsWords W y' ∧
+      (val W x' : Int) = ((lehmerCofactors W (val W (xl ++ [xt])) (val W y)).1 : Int) * val W (xl ++ [xt]) -
+        ((lehmerCofactors W (val W (xl ++ [xt])) (val W y)).2.1 : Int) * val W y ∧
+      (val W y' : Int) = ((lehmerCofactors W (val W (xl ++ [xt])) (val W y)).2.2.2 : Int) * val W y -
+        ((lehmerCofactors W (val W (xl ++ [xt])) (val W y)).2.2.1 : Int) * val W (xl ++ [xt]) ∧
+      0 < val W x' ∧ 0 < val W y' ∧ val W x' + val W y' ≤ val W (xl ++ [xt]) ∧ val W y' ≤ val W y :=
+  lehmerStepFull_committed_longer W hW xl xt y hx hxt hy hl hxy hlen hb
+
+/-- the same for operands of equal length (the fix-up is not entered) -/
+theorem lehmer_step_full_committed_eqlen (W : Nat) (hW : 2 ≤ W) (x y : List Nat)
+    (hx : IsWords W x) (hy : IsWords W y) (hl : x.length = y.length)
+    (hxy : val W y ≤ val W x) (hlen : 1 < wordLen W (val W y))
+    (hb : (lehmerCofactors W (val W x) (val W y)).2.1 ≠ 0) :
+    ∃ x' y', lehmerStepFull W (lehmerCofactors W (val W x) (val W y)).1
+        (lehmerCofactors W (val W x) (val W y)).2.1 (lehmerCofactors W (val W x) (val W y)).2.2.1
+        (lehmerCofactors W (val W x) (val W y)).2.2.2 x y = some (x', y') ∧
+      x'.length = x.length ∧ y'.length = y.length ∧ IsWords W x' ∧ IsWords W y' ∧
+      (val W x' : Int) = ((lehmerCofactors W (val W x) (val W y)).1 : Int) * val W x -
+        ((lehmerCofactors W (val W x) (val W y)).2.1 : Int) * val W y ∧
+      (val W y' : Int) = ((lehmerCofactors W (val W x) (val W y)).2.2.2 : Int) * val W y -
+        ((lehmerCofactors W (val W x) (val W y)).2.2.1 : Int) * val W x ∧
+      0 < val W x' ∧ 0 < val W y' ∧ val W x' + val W y' ≤ val W x ∧ val W y' ≤ val W y :=
+  lehmerStepFull_committed_eqlen W hW x y hx hy hl hxy hlen hb
+
+/-- the hypotheses are satisfiable, both shapes: `x = [12345, 999, 1]`, `y = [7, 2^63 + 11]` commits `(1, 2, 0, 1)` and
+    the fix-up clears the top word; `x = [12345, 2^63 + 999]`, `y = [7, 2^62 + 2^61 + 11]` commits `(3, 4, 2, 3)` -/
+example : val 64 [7, 2 ^ 63 + 11] ≤ val 64 ([12345, 999] ++ [1]) ∧ 1 < wordLen 64 (val 64 [7, 2 ^ 63 + 11]) ∧
+    lehmerCofactors 64 (val 64 ([12345, 999] ++ [1])) (val 64 [7, 2 ^ 63 + 11]) = (1, 2, 0, 1) ∧
+    lehmerStepFull 64 1 2 0 1 ([12345, 999] ++ [1]) [7, 2 ^ 63 + 11] = some ([12331, 977, 0], [7, 2 ^ 63 + 11]) ∧
+    val 64 [7, 2 ^ 62 + 2 ^ 61 + 11] ≤ val 64 [12345, 2 ^ 63 + 999] ∧ 1 < wordLen 64 (val 64 [7, 2 ^ 62 + 2 ^ 61 + 11]) ∧
+    lehmerCofactors 64 (val 64 [12345, 2 ^ 63 + 999]) (val 64 [7, 2 ^ 62 + 2 ^ 61 + 11]) = (3, 4, 2, 3) ∧
+    lehmerStepFull 64 3 4 2 3 [12345, 2 ^ 63 + 999] [7, 2 ^ 62 + 2 ^ 61 + 11]
+      = some ([37007, 2953], [18446744073709526947, 2305843009213691986]) := by decide +kernel
 
 end Dashu.Props.C12
